@@ -65,7 +65,7 @@ template <class G, class L> void concCase(size_t n, const std::vector<std::strin
     std::vector<std::thread> th;
     for (unsigned id = 0; id < T; id++)
         th.emplace_back([&, id] {
-            std::string file = scratch + "/t" + std::to_string(id);
+            std::string file = scratch + "/net.t" + std::to_string(id);      // distinct files that share directory and stem
             while (!go.load()) std::this_thread::yield();
             for (unsigned r = 0; r < R; r++)
                 for (int q = 0; q < NCALLS; q++) { int k = (q + id) % NCALLS; if (readerCall<G, L>(g, k, S, s, t, file) != ref[k]) bad++; }
